@@ -155,6 +155,7 @@ def run_refine(items, w=2, monitors=True, max_level=6000, max_alloc=256, timeout
             if it.skip:
                 continue
             c = bykey[it.key]
+            it.meta['guard_labels'] = c.meta.get('guard_labels', 0)
             p = by.get((c.prog, c.inp))
             if p is None:
                 it.result = None
